@@ -295,7 +295,9 @@ func c09Gen(rt *rapid.T) *hist.Case {
 		case 4, 5, 6:
 			a := hist.Action{Kind: "ack", Client: 0, Index: rapid.IntRange(0, 4).Draw(rt, "idx")}
 			if ver == 5 && rapid.IntRange(0, 4).Draw(rt, "failure-code") == 0 {
-				a.Reason = pick(rt, "reason", []byte{0x80, 0x83, 0x97}) // an acknowledgement all the same: it ends the exchange
+				// 0x80 and above: an acknowledgement all the same, it ends the exchange; 0x10 (no matching subscribers) is a
+				// success code: a PUBREC carrying it continues the exchange like reason 0
+				a.Reason = pick(rt, "reason", []byte{0x80, 0x83, 0x97, 0x10, 0x10})
 			}
 			return a
 		case 7:
